@@ -415,3 +415,99 @@ func (w *World) C01Policy() {
 		}
 	}
 }
+
+// C01NameTypes: "verifies for the expected name" — an identifier is a type and a label. Servers
+// whose certificate chains to the trusted root and whose key they hold, but which carry the expected
+// label under another id type, in another case, with a trailing dot; and clients expecting such
+// variants of an honest server's name. All must be rejected; the exactly named server accepted.
+func (w *World) C01NameTypes() {
+	cv := w.P.Verify(PolStore, "", nil, false)
+	L := "srv.example"
+	typed := func(t certs.IDType, l string) certs.Name { return certs.Name{Label: []byte(l), Type: t} }
+	type tc struct {
+		what   string
+		expect certs.Name
+		id     *Ident
+	}
+	honest := w.P.IssueNamed("dns-named-server", certs.DNSName(L))
+	rawSrv := w.P.IssueNamed("raw-named-server", certs.RawStringName(L))
+	cases := []tc{
+		{"the exactly named server (control)", certs.DNSName(L), honest},
+		{"label under id type raw", certs.DNSName(L), w.P.IssueNamed("label-under-raw-type", certs.RawStringName(L))},
+		{"label under id type IPv4", certs.DNSName(L), w.P.IssueNamed("label-under-ipv4-type", typed(certs.TypeIPv4Address, L))},
+		{"label under id type IPv6", certs.DNSName(L), w.P.IssueNamed("label-under-ipv6-type", typed(certs.TypeIPv6Address, L))},
+		{"label under raw type next to another DNS name", certs.DNSName(L), w.P.IssueNamed("raw-label-plus-other-dns", certs.RawStringName(L), certs.DNSName("other.example"))},
+		{"upper-case label", certs.DNSName(L), w.P.IssueNamed("upper-case-label", certs.DNSName("SRV.EXAMPLE"))},
+		{"mixed-case label", certs.DNSName(L), w.P.IssueNamed("mixed-case-label", certs.DNSName("Srv.Example"))},
+		{"label with a trailing dot", certs.DNSName(L), w.P.IssueNamed("trailing-dot-label", certs.DNSName(L+"."))},
+		{"label with a trailing dot under raw type", certs.DNSName(L), w.P.IssueNamed("trailing-dot-raw", certs.RawStringName(L+"."))},
+		{"client expects the upper-case name", certs.DNSName("SRV.EXAMPLE"), honest},
+		{"client expects the name with a trailing dot", certs.DNSName(L + "."), honest},
+		{"client expects the raw name, server named under DNS type", certs.RawStringName(L), honest},
+		{"client expects the raw name in upper case", certs.RawStringName("SRV.EXAMPLE"), rawSrv},
+		{"raw-named server, raw name expected (control)", certs.RawStringName(L), rawSrv},
+	}
+	for _, hidden := range []bool{false, true} {
+		mode := map[bool]string{false: "discoverable", true: "hidden"}[hidden]
+		for _, pol := range []string{PolStore, PolBoth} {
+			for _, c := range cases {
+				may := w.P.SpecAcceptsName(pol, c.expect, c.id, nil, false)
+				desc := fmt.Sprintf("%s: client(policy=%s) expecting %s %q <- chain-valid, key-holding server named %v: %s", mode, pol, idTypeName(c.expect.Type), c.expect.Label, namesOf(c.id), c.what)
+				why := "the certificate does not carry the expected name (type and label): " + c.what
+				// black box
+				srv := NewSrv(SingleConfig(c.id, cv, hidden))
+				ccfg := w.Cli.ClientConfig(w.P.VerifyName(pol, c.expect, nil, false))
+				if hidden {
+					ccfg.ServerKEMKey = &c.id.KEM.Public
+				}
+				r := RunHandshake(srv, ccfg, w.NextAddr(), nil)
+				ok, sig, what := true, "", ""
+				if r.CliOK() && !may {
+					ok, sig, what = false, "C01:client-completes-with-server-not-certified-for-expected-name", "Client.Handshake returned nil although "+why
+				} else if !r.CliOK() && may {
+					ok, sig, what = false, "C01:honest-server-rejected", fmt.Sprintf("handshake with the exactly named server failed: %v", r.Err)
+				}
+				specCase("C01", "name-type-and-spelling/"+mode, desc, ok, sig, what, !may)
+				r.Close()
+				// white box on the authenticating reader, compared with the model
+				m := Meta{Prop: "C01", Class: "reader-name-type-and-spelling/" + mode, Desc: desc, MustRej: !may, MustAcc: may, Why: why,
+					Sig: "C01:client-completes-with-server-not-certified-for-expected-name", NT: !may}
+				if hidden {
+					wb, err := NewHWB(NewSrv(SingleConfig(c.id, cv, true)), ccfg, w.NextAddr())
+					if err != nil {
+						panic(err)
+					}
+					CaseSRH(wb.HS, w.Cli.Key, wb.PreRS, wb.Resp, m)
+				} else {
+					wb, err := NewWB(NewSrv(SingleConfig(c.id, cv, false)), ccfg, w.NextAddr())
+					if err != nil {
+						panic(err)
+					}
+					CaseSA(wb.HS, wb.PreSA, wb.SA, m)
+				}
+			}
+		}
+	}
+}
+
+func idTypeName(t certs.IDType) string {
+	switch t {
+	case certs.TypeRaw:
+		return "raw"
+	case certs.TypeDNSName:
+		return "DNS"
+	case certs.TypeIPv4Address:
+		return "IPv4"
+	case certs.TypeIPv6Address:
+		return "IPv6"
+	}
+	return fmt.Sprintf("type%#x", byte(t))
+}
+
+func namesOf(id *Ident) string {
+	s := ""
+	for _, b := range id.Leaf.IDChunk.Blocks {
+		s += fmt.Sprintf("[%s %q]", idTypeName(b.Type), b.Label)
+	}
+	return s
+}
